@@ -1,2 +1,3 @@
 SPECIFICATION SpecR
 INVARIANT EmitR
+INVARIANT EmitEn
